@@ -5,7 +5,7 @@
 EXTENDS Failures, Json, IOUtils, TLCExt
 Data == JsonDeserialize(IOEnv.TRACE_FILE)
 AllFrames == {F_parse_method, F_known_args, F_check_type, F_union_loop, F_load_config, F_apply_config, F_config_load_a, F_links, F_validate, F_default_cfg, F_value_key, F_env_list, F_path_resolve, F_cfg_path,
-              F_path_read, F_float_conv, F_registered, F_registered_dec}
+              F_path_read, F_float_conv, F_registered, F_registered_dec, F_defaults}
 FrameNamed(n) == CHOOSE f \in AllFrames : f.name = n
 VARIABLE tidx
 Init == tidx \in 1..(Len(Data.obs) + Len(Data.inj))
